@@ -167,6 +167,19 @@ func (self *visitorUserNode) incrSP() error {
 	return nil
 }
 
+// checkScalarField rejects a scalar JSON value where no scalar is expected: no field at all (the document
+// itself, or an element of an array that does not belong to a repeated field), or a repeated/map field that
+// must be written as an array/object
+func (self *visitorUserNode) checkScalarField(fieldDesc *proto.FieldDescriptor) error {
+	if fieldDesc == nil || fieldDesc.Type() == nil {
+		return newError(meta.ErrDismatchType, "unexpected scalar value", nil)
+	}
+	if self.globalFieldDesc != nil && (fieldDesc.Type().IsList() || fieldDesc.Type().IsMap()) {
+		return newError(meta.ErrDismatchType, fmt.Sprintf("field '%s' isn't a scalar", fieldDesc.Name()), nil)
+	}
+	return nil
+}
+
 func (self *visitorUserNode) OnNull() error {
 	if self.inskip {
 		self.inskip = false
@@ -174,6 +187,9 @@ func (self *visitorUserNode) OnNull() error {
 	}
 	// null means "absent": nothing is encoded and the stack is left alone
 	if self.globalFieldDesc == nil {
+		if self.sp == 0 {
+			return newError(meta.ErrDismatchType, "the document must be a JSON object", nil)
+		}
 		// null list element
 		return nil
 	}
@@ -193,6 +209,13 @@ func (self *visitorUserNode) OnBool(v bool) error {
 	// case PackedList(List bool), get fieldDescriptor from Stack
 	if self.globalFieldDesc == nil && top.typ == arrStkType {
 		fieldDesc = top.state.fieldDesc
+	}
+
+	if err = self.checkScalarField(fieldDesc); err != nil {
+		return err
+	}
+	if fieldDesc.Kind() != proto.BoolKind {
+		return newError(meta.ErrDismatchType, "param isn't boolType", nil)
 	}
 
 	// packed list no need to write tag
@@ -223,6 +246,9 @@ func (self *visitorUserNode) OnString(v string) error {
 	fieldDesc := self.globalFieldDesc
 	if fieldDesc == nil && top != nil && top.Type().IsList() {
 		fieldDesc = top
+	}
+	if err = self.checkScalarField(fieldDesc); err != nil {
+		return err
 	}
 
 	if err = self.p.AppendTagByKind(fieldDesc.Number(), fieldDesc.Kind()); err != nil {
@@ -263,6 +289,9 @@ func (self *visitorUserNode) OnInt64(v int64, n json.Number) error {
 	// case PackedList(List<int32/int64/...), get fieldDescriptor from Stack
 	if self.globalFieldDesc == nil && top.typ == arrStkType {
 		fieldDesc = top.state.fieldDesc
+	}
+	if err = self.checkScalarField(fieldDesc); err != nil {
+		return err
 	}
 
 	// packed list no need to write tag
@@ -354,6 +383,9 @@ func (self *visitorUserNode) OnFloat64(v float64, n json.Number) error {
 	if self.globalFieldDesc == nil && top.typ == arrStkType {
 		fieldDesc = top.state.fieldDesc
 	}
+	if err = self.checkScalarField(fieldDesc); err != nil {
+		return err
+	}
 
 	// packed list no need to write tag
 	if !fieldDesc.Type().IsList() {
@@ -426,7 +458,16 @@ func (self *visitorUserNode) OnObjectBegin(capacity int) error {
 		fieldDesc = top.state.fieldDesc
 	}
 
+	if fieldDesc == nil && self.sp != 0 {
+		// an object where no message or map is expected (e.g. inside a nested array)
+		return newError(meta.ErrDismatchType, "unexpected object value", nil)
+	}
 	if fieldDesc != nil {
+		if fieldDesc.Type() == nil || fieldDesc.Kind() != proto.MessageKind ||
+			(self.globalFieldDesc != nil && fieldDesc.Type().IsList()) {
+			// scalar field, or a repeated field written as a single object
+			return newError(meta.ErrDismatchType, fmt.Sprintf("field '%s' isn't a message or map", fieldDesc.Name()), nil)
+		}
 		if fieldDesc.Type().IsMap() {
 			// case Map, push MapDesc
 			if err = self.push(true, false, false, fieldDesc, curNodeLenPos); err != nil {
@@ -602,6 +643,10 @@ func (self *visitorUserNode) OnArrayBegin(capacity int) error {
 	}
 	var err error
 	curNodeLenPos := -1
+	if self.globalFieldDesc == nil || self.globalFieldDesc.Type() == nil || !self.globalFieldDesc.Type().IsList() {
+		// the document itself, an element of an array, or a field that is not repeated
+		return newError(meta.ErrDismatchType, "unexpected array value", nil)
+	}
 	if self.globalFieldDesc != nil {
 		// PackedList: encode Tag、Len
 		if self.globalFieldDesc.Type().IsPacked() {
